@@ -100,6 +100,7 @@ def gram_passes(pid, tier):
         P.append((LIFT + 'operator grammars NT1 T3 R<=3 W<=%d, all precedence/associativity assignments' % (5 if q else 6), base + ['--nt', '1', '--t', '3', '--err', '0', '--maxR', '3', '--maxW', '5' if q else '6', '--maxlen', '4', '--prec-levels', '2' if q else '3', '--rprec-max', '1' if q else '2'], 'lift'))
     if pid == 'C05':
         P.append(('error-rule frames NT2 T2 R<=3 with shift/reduce conflicts, all precedence/associativity assignments (the error symbol is a term of precedence 0: it counts as a rule\'s last term)', base + ['--nt', '2', '--t', '2', '--err', '1', '--maxR', '3', '--maxlen', '4', '--prec-levels', '2', '--rprec-max', '1']))
+        P.append(('error-rule frames NT1 T2 R<=2 W<=5 (rules ending in term error [N]), all precedence/associativity assignments', base + ['--nt', '1', '--t', '2', '--err', '1', '--maxlen', '4', '--prec-levels', '2', '--rprec-max', '1']))
     if pid in ('C01', 'C02', 'C05', 'C08', 'C09', 'C11', 'C16'):
         P.append(('realistic seed grammars (JSON, layered expression grammar with calls, 5-operator grammar with declared precedence, statements with error recovery), all one-symbol variants, strings<=3 over 8-11 terminals + every sentence of the seed up to %d tokens and its one-token deletions' % (7 if q else 8), base + ['--maxlen', '3', '--sentences', '7' if q else '8', '--neighbours', '--max-per-frame', '0', '--seeds', os.path.join(VERIF, 'seeds', 'gram_big_seeds.txt')], 'big'))
     if pid == 'C05' and not q:   # the largest space last: it takes whatever time is left and reports exhaustive=false when cut
